@@ -30,7 +30,9 @@ def closure(facts, kinds, taker):
                 for (s2, f2, o2) in F:
                     if f2 == f and s2 == o:
                         new.add((s, f, o2))
-            if f == "chairs" and kinds.get(taker[s]) == "Delegate":   # Chairs < Attends, the field lives on a subclass of the
+            if f == "leads":                          # Leads < Chairs < Attends; the class has no field for the middle level
+                new.add((s, "attends", o))
+            if f == "chairs" and kinds.get(taker[s]) in ("Delegate", "Convener"):   # Chairs < Attends, the field lives on a subclass of the
                 new.add((taker[s], "attends", o))                       # declared role taker type
             if f == "under":                          # the same transitive property declared on another class
                 for (s2, f2, o2) in F:
@@ -65,6 +67,8 @@ def observe_fields(om, named):
             fl = ("works_for", "member_of")
         elif isinstance(o, getattr(om, "Unit", ())):
             fl = ("under",)
+        elif isinstance(o, getattr(om, "Convener", ())):
+            fl = ("attends", "leads")
         elif isinstance(o, getattr(om, "Delegate", ())):
             fl = ("attends",)
         elif isinstance(o, getattr(om, "Visitor", ())):
